@@ -27,8 +27,9 @@
   `Exception::NonPositiveDefinite` (repo commit 7e9fd7d2, C10's patch; before it the return value
   was ignored and the half-factored block was used): every query of `AdjEnvelope` then throws.
 
-  A sparse row with a repeated column index is outside the model (the C++ keeps both
-  elements for uncorrelated blocks and overwrites for correlated ones).
+  A sparse row with a repeated column index: every consumer in the C++ adds the entries (project_equations since
+  /repo 52e994b, Homogenization::run since 6d0f7107, class Adj since a7902736; Envelope::set always did), and so
+  does the model since round 11 (`Problem.dense` / `rowDense` are sums, `RowsOK` is the range condition only).
 -/
 import Gama.Model.Ls.Env.Core
 import Gama.Model.BandChol
